@@ -24,6 +24,8 @@ def _src(fi: FuncInfo, n: ast.AST) -> str:
 def _method(p: Program, ci: ClassInfo, name: str) -> FuncInfo:
     raw = ci.attrs.get(name)
     if not isinstance(raw, FuncInfo):
+        # (a method inherited from a mixin is not looked for: the rules below read the class's own methods side by side,
+        # and a registry assembled from mixins is reported as not analysed rather than judged on half of its code)
         raise AnalysisError("anchor vanished: %s.%s" % (ci.qualname, name))
     return raw
 
@@ -389,6 +391,24 @@ def registry_rules(ctx, rule: str):
         elif raw is add and kind == "update":
             # self._data.update((item.id, item) for item in member.values() if item.id not in self._data): lazily filtered pairs
             ok = _filtered_pairs(raw, node) is not None
+        elif kind == "rebinding":
+            # `if not self._data: self._data = dict(<table>)`: an empty registry adopting a *copy* of a whole table has nothing
+            # to arbitrate -- sound exactly when that table is itself keyed by its items' ids, which is a fact about where
+            # the table comes from (another combined registry) that this rule does not establish: undecided.  Adopting the
+            # table itself (no copy) or rebinding a registry that may hold items is the violation.
+            v = node.value
+            copied = (isinstance(v, ast.Call) and len(v.args) == 1 and not v.keywords and ast.unparse(v.func) in ("dict", "OrderedDict", "collections.OrderedDict")) or (
+                isinstance(v, ast.Call) and isinstance(v.func, ast.Attribute) and v.func.attr == "copy" and not v.args)
+            pm = {}
+            for nd in ast.walk(raw.node):
+                for ch in ast.iter_child_nodes(nd):
+                    pm[id(ch)] = nd
+            g = pm.get(id(node))
+            empty = isinstance(g, ast.If) and node in g.body and isinstance(g.test, ast.UnaryOp) and isinstance(g.test.op, ast.Not) \
+                and _src(raw, g.test.operand) in ("self._data", "len(self._data)")
+            if copied and empty:
+                raise AnalysisError("%s:%d: an empty combined registry adopts a copy of a whole table (`%s`); whether that table is keyed by "
+                                    "its items' own ids is not established by the combined-registry rule" % (raw.module.relpath, node.lineno, _src(raw, node)))
         r.ob(rule + ".combined-first-wins", "%s@%s" % (raw.qualname, kind), ok,
              "the only writer of a combined registry must be insert-if-absent keyed by the item's own id (first member wins): `%s`" % _src(raw, node),
              "%s:%d" % (raw.module.relpath, node.lineno))
